@@ -49,6 +49,9 @@ CLAIMED = {
  "C03": ("region/effect abstract interpretation (receiver purity) over the alignment class family, MRO-table signature parity of the sibling classes, constructor-call completeness for history state, paired-component dependency rule",
          "Static: none of ~55 listed operations (resolved for ArrayAlignment, Alignment, SequenceCollection, and for Aligned) mutates its receiver; the two alignment classes take the same parameters with the same defaults for every shared public operation; every functional rebuild of SeqsData / IndelMap carries its history state; an Aligned's map and data are always recomputed together. That rows equal the string model is not decided.",
          "Trusts python ast, the numpy/container effect model, the allow-list (_named_seqs memo, _repr_policy), the curated history-state table."),
+ "C20": ("dialect-table comparison of delimited writers against the csv reader, region/effect abstract interpretation (receiver purity) of the table operations, MRO resolution of self-calls on write paths",
+         "Static: the csv-module writer and the hand-rolled delimited writer both produce what csv.reader(dialect='excel') reads back (quoting set, quote doubling, header treated like rows, same suffix->separator table on both sides); none of 28 listed table operations mutates its receiver; every self.<name>() call on the write paths exists in the class. Relational semantics (sort/join/filter results) are not decided.",
+         "Trusts python ast, the csv 'excel' dialect, the container effect model, allow-list: _repr_policy and the lazy index_name initialisation."),
 }
 
 NOT_APPLICABLE = {
